@@ -88,6 +88,7 @@ type lineM struct {
 	rhat    float64  // ranking value used for relaxation: min(r, Infinity); Infinity*(1+(W-L)/W) if unstretchable
 	negYZ   bool
 	empty   bool // no item between line start and break
+	signed  bool // the break precedes the first box after the previous break: K–P measures are negative sums
 	// three-valued fit tests on widths (+1 yes, -1 no, 0 within delta of the boundary)
 	shr          int  // L <= W + Z : the line can be shrunk to fit
 	str          int  // L >= W - Tolerance*Y : the line can be stretched to fit within Tolerance
@@ -116,7 +117,8 @@ func (e *exact) measure(a, b int) lineM {
 		m.L.Add(m.L, rat(e.pa.items[b].Width))
 	}
 	m.empty = s >= b
-	m.negYZ = m.Y.Sign() < 0 || m.Z.Sign() < 0
+	m.signed = s > b
+	m.negYZ = !m.signed && (m.Y.Sign() < 0 || m.Z.Sign() < 0)
 	W := rat(e.pa.width)
 	delta := 1e-9 * (1 + e.absW + math.Abs(e.pa.width))
 	dShr := new(big.Rat).Sub(new(big.Rat).Add(W, m.Z), m.L)
@@ -198,6 +200,7 @@ type seqStat struct {
 	dem                   float64
 	band                  bool // a line ratio within eps of a fitness-class boundary
 	negYZ                 bool
+	signed                bool // contains a line whose break precedes the first box after the previous break
 	exactShrink           bool // every line has ratio >= -1 in exact arithmetic
 	exactFeas             bool // every line has ratio in [-1, Tolerance] in exact arithmetic
 	strictFeas, looseFeas bool // all lines fit within [-1, Tolerance] with margin / up to the margin
@@ -217,6 +220,7 @@ func (e *exact) statOf(seq []int, tab map[[2]int]lineM) seqStat {
 		st.minR = math.Min(st.minR, m.rf)
 		st.maxRhat = math.Max(st.maxRhat, m.rhat)
 		st.negYZ = st.negYZ || m.negYZ
+		st.signed = st.signed || m.signed
 		st.exactShrink = st.exactShrink && m.exShr
 		st.exactFeas = st.exactFeas && m.exShr && m.exStr
 		st.strictFeas = st.strictFeas && m.shr > 0 && m.str > 0
@@ -364,6 +368,8 @@ func judge(c *hc.Ctx, pa para, res []brk, ok bool) {
 			relaxed = true
 		}
 		switch {
+		case m.signed:
+			c.Count("skip:ratio-of-line-before-first-box")
 		case m.negYZ:
 			c.Count("skip:ratio-of-line-with-negative-stretch")
 		case inside:
@@ -418,7 +424,7 @@ func judge(c *hc.Ctx, pa para, res []brk, ok bool) {
 	}
 	bestStrict, bestLoose := math.Inf(1), math.Inf(1)
 	tStrict, tLoose := math.Inf(1), math.Inf(1) // least max ratio over breakings whose lines can all be shrunk to fit
-	band, negYZ := false, false
+	band, negYZ, anySigned := false, false, false
 	exactFeas, exactShrink := false, false
 	nSeq := 0
 	var cur []int
@@ -432,6 +438,12 @@ func judge(c *hc.Ctx, pa para, res []brk, ok bool) {
 			if b == n-1 {
 				nSeq++
 				st := e.statOf(cur, tab)
+				if st.signed {
+					// a line without any box, measured by negative sums: not a candidate of the oracle
+					anySigned = true
+					cur = cur[:len(cur)-1]
+					continue
+				}
 				negYZ = negYZ || st.negYZ
 				exactFeas = exactFeas || st.exactFeas
 				exactShrink = exactShrink || st.exactShrink
@@ -472,7 +484,7 @@ func judge(c *hc.Ctx, pa para, res []brk, ok bool) {
 			clear = false
 		}
 	}
-	if clear && len(legal) <= 12 {
+	if clear && !anySigned && len(legal) <= 12 {
 		out := "none"
 		if bestStrict < math.Inf(1) {
 			out = hc.H(bestStrict)
@@ -486,8 +498,17 @@ func judge(c *hc.Ctx, pa para, res []brk, ok bool) {
 	// break position, but a break at a penalty with width can give a longer line than a later break
 	// (and so can glue that shrinks by more than its width). Failures of feasibility/optimality in
 	// paragraphs that contain such a pair are classified separately.
+	if code.signed {
+		c.Count("skip:returned-line-before-first-box")
+		return
+	}
 	cls := ""
-	if e.nonMonotone(legal, tab) {
+	if anySigned && e.signedHarm(legal, tab) {
+		// Known defect class: between two legal breaks without a box the code measures the "line" by
+		// negative sums; a negative stretch difference gives a negative ratio that deactivates the node.
+		cls = ":break-before-first-box"
+		c.Count("feature:break-before-first-box")
+	} else if e.nonMonotone(legal, tab) {
 		cls = ":nonmonotone-min-length"
 		c.Count("feature:nonmonotone-min-length")
 	}
@@ -574,6 +595,31 @@ func (e *exact) nonMonotone(legal []int, tab map[[2]int]lineM) bool {
 			}
 			if m.shr <= 0 {
 				over = math.Max(over, Lf)
+			}
+			if isForced(e.pa, b) {
+				break
+			}
+		}
+	}
+	return false
+}
+
+// signedHarm reports whether some pair of legal breaks a < b without a box between them (the code
+// measures that "line" by negative sums) gets a ratio that deactivates the node at a (< -1) or
+// passes for a feasible line (within [-1, Tolerance]).
+func (e *exact) signedHarm(legal []int, tab map[[2]int]lineM) bool {
+	for _, a := range legal {
+		for _, b := range legal {
+			if b <= a {
+				continue
+			}
+			m, ok := tab[[2]int{a, b}]
+			if !ok {
+				m = e.measure(a, b)
+				tab[[2]int{a, b}] = m
+			}
+			if m.signed && m.kind <= 0 && m.rf <= e.pa.p.tol+eps {
+				return true
 			}
 			if isForced(e.pa, b) {
 				break
